@@ -69,11 +69,14 @@ fn near_shape(s: &[u8]) -> bool {
 pub fn check_bytes(bytes: &[u8], st: &mut Stats, classify: bool) -> Result<(), String> {
     let want = ref_decode(bytes);
     st.eval();
+    // the same text is decoded twice in a row and both results are judged: decoding is a function of the text alone
+    for round in 0..2 {
     let got = catch(|| Frame::from_bytes(bytes)).map_err(|p| format!("decoder panicked on {}: {p}", show_bytes(bytes)))?;
     let mismatch = |what: &str, got: &dyn std::fmt::Debug| -> String {
         format!(
-            "decoding {}: implementation gives {what} {got:?}, the reference parser gives {want:?}",
-            show_bytes(bytes)
+            "decoding {}{}: implementation gives {what} {got:?}, the reference parser gives {want:?}",
+            show_bytes(bytes),
+            if round == 1 { " (the second time in a row)" } else { "" }
         )
     };
     match (&got, &want) {
@@ -109,6 +112,7 @@ pub fn check_bytes(bytes: &[u8], st: &mut Stats, classify: bool) -> Result<(), S
         }
         (Ok(f), _) => return Err(mismatch("acceptance as", f)),
         (Err(e), _) => return Err(mismatch("the rejection", e)),
+    }
     }
     match want {
         RefDecode::Invalid => {
@@ -166,7 +170,10 @@ pub fn lookalikes() -> &'static [String] {
             let Some(c) = char::from_u32(cp) else { continue };
             let up: String = c.to_uppercase().collect();
             let lo: String = c.to_lowercase().collect();
-            if in_alphabet(&up) || in_alphabet(&lo) || c.is_whitespace() {
+            // (plus the usual invisible characters: byte-order mark, zero-width space/joiners, word joiner, soft hyphen,
+            // directional marks - what text tools put in front of or inside a line without showing it)
+            let invisible = matches!(cp, 0xFEFF | 0x200B..=0x200F | 0x2060 | 0x00AD | 0x202A..=0x202E | 0x2066..=0x2069 | 0xFFFE | 0xFFFD);
+            if in_alphabet(&up) || in_alphabet(&lo) || c.is_whitespace() || invisible {
                 let s = c.to_string();
                 if !v.contains(&s) {
                     v.push(s);
@@ -416,6 +423,41 @@ pub fn run(ctx: &Ctx) {
     });
     ctx.part_done("every-byte-substituted", true, json!("all 256 byte values substituted at (singly and as a pair) / inserted before every position of 5 valid frames"));
 
+    // (i-d'') long well-formed lines: ':' + n hex pairs (+CRLF) for every n up to 5000 and geometrically beyond, with a
+    // length field that cannot be right and with one that is right modulo 256: all are length mismatches, however long
+    let mut pair_counts: Vec<usize> = (261..=5000).collect();
+    let mut n = 5000usize;
+    while n < 600_000 {
+        n = n * 21 / 20 + 1;
+        pair_counts.extend([n, n + 1]);
+    }
+    let chunks: Vec<Vec<usize>> = pair_counts.chunks(64).map(|c| c.to_vec()).collect();
+    par_range(ctx, "long-lines", chunks.len() as u64, |j, st| {
+        for &pairs in &chunks[j as usize] {
+            // pairs = 4 header bytes + data bytes + checksum
+            let data_len = pairs - 5;
+            for len_field in [0x10u8, (data_len % 256) as u8] {
+                let mut fields: Vec<u8> = Vec::with_capacity(pairs);
+                fields.extend_from_slice(&[len_field, 0x12, 0x34, 0x00]);
+                fields.extend((0..data_len).map(|k| (k as u8).wrapping_mul(7)));
+                let sum = fields.iter().fold(0u8, |a, &b| a.wrapping_add(b));
+                fields.push(0u8.wrapping_sub(sum));
+                let mut text = Vec::with_capacity(2 * pairs + 3);
+                text.push(b':');
+                for b in &fields {
+                    text.push(b"0123456789ABCDEF"[(b >> 4) as usize]);
+                    text.push(b"0123456789abcdef"[(b & 15) as usize]);
+                }
+                if pairs % 2 == 0 {
+                    text.extend_from_slice(b"\r\n");
+                }
+                check_bytes(&text, st, false).map_err(|m| (json!({"pairs": pairs, "length_field": len_field, "crlf": pairs % 2 == 0}), format!("line of {pairs} hex pairs: {}", &m[m.len().saturating_sub(300)..])))?;
+            }
+        }
+        Ok(())
+    });
+    ctx.part_done("long-lines", true, json!({"pair_counts": pair_counts.len(), "what": "well-formed lines of 261..=5000 hex pairs (every count) and ~100 counts up to 600000, each with two length fields"}));
+
     // (i-e) the heaviest frames: 250..=255 data bytes of 0xFF / 0xFE with high address and type bytes (field sums near
     // and beyond 65536), valid, with the checksum off by one, and with the length field off by one
     par_range(ctx, "heaviest-frames", 6, |k, st| {
@@ -582,8 +624,25 @@ pub fn run(ctx: &Ctx) {
 }
 
 pub fn replay(_part: &str, case: &Value) -> Result<(), String> {
-    let c: BytesCase = serde_json::from_value(case.clone()).map_err(|e| format!("bad case: {e}"))?;
     let mut st = Stats::new();
+    if let (Some(pairs), Some(len_field)) = (case.get("pairs").and_then(|v| v.as_u64()), case.get("length_field").and_then(|v| v.as_u64())) {
+        let pairs = pairs as usize;
+        let data_len = pairs.saturating_sub(5);
+        let mut fields: Vec<u8> = vec![len_field as u8, 0x12, 0x34, 0x00];
+        fields.extend((0..data_len).map(|k| (k as u8).wrapping_mul(7)));
+        let sum = fields.iter().fold(0u8, |a, &b| a.wrapping_add(b));
+        fields.push(0u8.wrapping_sub(sum));
+        let mut text = vec![b':'];
+        for b in &fields {
+            text.push(b"0123456789ABCDEF"[(b >> 4) as usize]);
+            text.push(b"0123456789abcdef"[(b & 15) as usize]);
+        }
+        if case.get("crlf").and_then(|v| v.as_bool()).unwrap_or(false) {
+            text.extend_from_slice(b"\r\n");
+        }
+        return check_bytes(&text, &mut st, false);
+    }
+    let c: BytesCase = serde_json::from_value(case.clone()).map_err(|e| format!("bad case: {e}"))?;
     // strings this process decoded before the failing one (mass probe)
     if let Some(before) = case.get("decoded_before").and_then(|v| v.as_array()) {
         for b in before {
